@@ -9,7 +9,10 @@
  *   outcomes  16 bytes indexed by the canonical filter id (alphabetical, see cb_names); byte = enum filter_result + 1,
  *             or 0x80 for boolean, smtpbugs, spf, usersize: call the real filter (filters_real2.c)
  *   session   (default all zero) byte 0: xmitstat.spf; byte 1: bit 0 TLS, bit 1 authenticated (authname), bit 2 ESMTP,
- *             bit 3 apostrophe in the MAIL FROM local part, bit 4 empty MAIL FROM; byte 2: blanks after "RCPT TO:";
+ *             bit 3 apostrophe in the MAIL FROM local part, bit 4 empty MAIL FROM, bit 5 xmitstat.spacebug already set when
+ *             the command arrives (what smtp_from leaves behind after "MAIL FROM: <a>"), bit 6 an earlier real
+ *             "RCPT TO: <user@example.org>" (one blank, every filter passing) is run first; byte 2: blanks after "RCPT TO:"
+ *             of the observed command;
  *             bytes 3-4: announced SIZE (xmitstat.thisbytes, big endian)
  *   user      mode byte (0: no user directory, the user exists by dom/.qmail-user; 1: directory without filterconf;
  *             2: directory with filterconf) followed by the bytes of the filterconf file
@@ -271,6 +274,29 @@ static void run_case(int nf, struct field *f)
 	rcptcount = 0; goodrcpt = 0; thisrecip = NULL;
 	TAILQ_INIT(&head);
 	char cmd[64];
+	if (sess[1] & 32)
+		xmitstat.spacebug = 1;
+	if (sess[1] & 64) {
+		/* an earlier recipient of the same transaction, given with a blank; everything it leaves behind except
+		 * xmitstat is discarded */
+		unsigned char saved[NFILT];
+		memcpy(saved, outcomes, NFILT); memset(outcomes, 1, NFILT);
+		probe_key = NULL;
+		snprintf(cmd, sizeof(cmd), "RCPT TO: <user@example.org>");
+		linein.len = strlen(cmd);
+		linein.s = malloc(linein.len + 1); memcpy(linein.s, cmd, linein.len + 1);
+		(void)smtp_rcpt();
+		free(linein.s);
+		while (!TAILQ_EMPTY(&head)) {
+			struct recip *r = TAILQ_FIRST(&head);
+			TAILQ_REMOVE(&head, r, entries);
+			free(r->to.s); free(r);
+		}
+		memcpy(outcomes, saved, NFILT);
+		probe_key = key; probed = 0;
+		n_trace = 0; n_replies = 0; n_tarpit = 0; n_ctrlerr = 0;
+		rcptcount = 0; goodrcpt = 0; thisrecip = NULL;
+	}
 	snprintf(cmd, sizeof(cmd), "RCPT TO:%.*s<user@example.org>", (int)sess[2], "        ");
 	linein.len = strlen(cmd);
 	linein.s = malloc(linein.len + 1); memcpy(linein.s, cmd, linein.len + 1);
